@@ -657,6 +657,37 @@ class SymInt:
 numbers.Integral.register(SymInt)
 
 
+class SymDate:
+    """Symbolic calendar date (duck-typed: year / month / day, == against datetime.date)."""
+    __slots__ = ('year', 'month', 'day')
+
+    def __init__(self, y, m, d):
+        self.year, self.month, self.day = SymInt(y), SymInt(m), SymInt(d)
+
+    def __eq__(self, other):
+        import datetime
+        if isinstance(other, SymDate):
+            return _sb(z3.And(self.year.z == other.year.z, self.month.z == other.month.z,
+                              self.day.z == other.day.z))
+        if isinstance(other, datetime.date):
+            return _sb(z3.And(self.year.z == other.year, self.month.z == other.month,
+                              self.day.z == other.day))
+        return False
+
+    def __ne__(self, other):
+        r = self.__eq__(other)
+        return (not r) if isinstance(r, bool) else _sb(z3.Not(r.z))
+
+    def __hash__(self):
+        return 0
+
+    def __repr__(self):
+        return 'SymDate(%s, %s, %s)' % (self.year, self.month, self.day)
+
+    def isoformat(self):
+        raise ConcretisationLeak('SymDate.isoformat')
+
+
 class SymLog10:
     """Result of math.log10(symbolic positive rational): only floor() is defined."""
     def __init__(self, z):
